@@ -413,6 +413,9 @@ def _check_trace(ctx, funcs, label):
     """Online rule over the recorded events: the last _fit of every dependent function comes after the last _fit of each
     of its conditioners and saw their final parameters."""
     ids = {id(f): i for i, f in enumerate(funcs)}
+    if not any(ev[0] == "_fit-start" and ev[1] in ids for ev in TRACE):
+        ctx.inconcl("no _fit event of these dependence functions was observed (trace monitor not reached)")
+        return
     last_end = {}
     seen_params = {}
     for pos, ev in enumerate(TRACE):
